@@ -3,7 +3,9 @@ package c02
 
 import (
 	"bytes"
+	"errors"
 	"fmt"
+	"io"
 	"log/slog"
 	"regexp"
 	"runtime"
@@ -33,12 +35,13 @@ var genOpts = lm.GenOpts{MaxDepth: 2}
 
 // monitor is the destination: it checks that Write calls never overlap and that the payload is stable.
 type monitor struct {
-	inflight atomic.Int32
-	yields   int
-	spins    int
-	mu       sync.Mutex
-	writes   [][]byte
-	problems []string
+	inflight  atomic.Int32
+	yields    int
+	spins     int
+	failEvery int // every n-th Write reports an error or a short write (0: never)
+	mu        sync.Mutex
+	writes    [][]byte
+	problems  []string
 }
 
 func (m *monitor) problem(format string, args ...any) {
@@ -70,9 +73,18 @@ func (m *monitor) Write(p []byte) (int, error) {
 	}
 	m.mu.Lock()
 	m.writes = append(m.writes, snap)
+	nth := len(m.writes)
 	m.mu.Unlock()
 	if n := m.inflight.Add(-1); n != 0 {
 		m.problem("%d Write calls still in flight when a Write returned", n)
+	}
+	// a destination may fail or write short: that is the destination's business, the logger must neither retry
+	// (a second Write for the same record) nor get confused about later records
+	if m.failEvery > 0 && nth%m.failEvery == 0 {
+		if nth%2 == 0 {
+			return 0, errors.New("destination: write failed")
+		}
+		return len(p) / 2, io.ErrShortWrite
 	}
 	return len(p), nil
 }
@@ -103,6 +115,7 @@ type scenario struct {
 	scripts   [][]op
 	yields    int
 	spins     int
+	failEvery int
 }
 
 func (sc *scenario) opts() *logger.Options {
@@ -135,6 +148,7 @@ func genScenario(t *rapid.T) *scenario {
 		addSource: rapid.IntRange(0, 2).Draw(t, "addSource") == 0,
 		yields:    rapid.SampledFrom([]int{0, 1, 2, 5, 20}).Draw(t, "yields"),
 		spins:     rapid.SampledFrom([]int{0, 0, 1000, 100000}).Draw(t, "spins"),
+		failEvery: rapid.SampledFrom([]int{0, 0, 0, 1, 3, 7}).Draw(t, "destinationFailsEvery"),
 	}
 	sc.shared = [][]lm.Step{nil}
 	for i, n := 0, rapid.IntRange(0, 3).Draw(t, "nshared"); i < n; i++ {
@@ -196,7 +210,7 @@ type outcome struct {
 
 func runScenario(sc *scenario) (string, outcome) {
 	var oc outcome
-	mon := &monitor{yields: sc.yields, spins: sc.spins}
+	mon := &monitor{yields: sc.yields, spins: sc.spins, failEvery: sc.failEvery}
 	root := logger.New(lm.NewHandler(sc.kind, mon, sc.opts()))
 	shared := make([]*logger.Logger, len(sc.shared))
 	for i, c := range sc.shared {
